@@ -26,6 +26,9 @@ structure CallCfg where
   hapX : Bool          -- is_haploid_x_reference
   female : Bool        -- is_sample_female
   par : Option String  -- diploid_parx_genome
+  /-- the antilogs `2^thr` of the thresholds (exact doubles): on the purity path the threshold scan reads the
+      RESCALED log2, which the model only has as a ratio, so it compares ratios -/
+  thrPow2 : List Rat := []
 deriving Repr, Inhabited
 
 inductive CClass | auto | x | y | parx | pary
@@ -128,8 +131,7 @@ structure CallOut where
 deriving Repr, Inhabited
 
 /-- `do_call` for one row (without filters / variants; `baf` column present iff `hasBaf`).
-    `thresholdV`: on the purity path the threshold method re-reads the *rescaled* log2; the model
-    is only driven with `method = threshold` when no purity is active. -/
+    On the purity path the threshold method re-reads the *rescaled* log2 (`cfg.thrPow2`). -/
 def callRow (cfg : CallCfg) (m : Method) (thr : List Rat) (first : String) (hasBaf : Bool)
     (row : SegRow) : CallOut :=
   let cls := classOf first cfg.par row.chrom row.s row.e
@@ -141,10 +143,16 @@ def callRow (cfg : CallCfg) (m : Method) (thr : List Rat) (first : String) (hasB
     let ratio := rescaledRatio cfg.ploidy cfg.hapX cls a Generated.MIN_ABS_VAL
     match m with
     | .none => { cn := none, ratio := some ratio, cn1 := none, cn2 := none, absolute := a }
-    | _ =>
+    | .clonal =>
       let cn := roundHE a
       let (c1, c2) := if hasBaf then allelic cn a row.baf else (none, none)
       { cn := some cn, ratio := some ratio, cn1 := c1, cn2 := c2, absolute := a }
+    | .threshold =>
+      -- `absolute_threshold` scans the log2 column just rewritten by `log2_ratios`: in ratio space, the
+      -- rescaled ratio against the thresholds' antilogs; above the last one, ceil(r · ratio)
+      let cn := thresholdCall cfg.thrPow2 cfg.ploidy rp (some ratio) ratio
+      let (c1, c2) := if hasBaf then allelic cn (cn : Rat) row.baf else (none, none)
+      { cn := some cn, ratio := some ratio, cn1 := c1, cn2 := c2, absolute := (cn : Rat) }
   | none =>
     match m with
     | .none => { cn := none, ratio := none, cn1 := none, cn2 := none, absolute := 0 }
